@@ -31,8 +31,15 @@ def gen(rng, count, tier):
                 params['worker_lifespan'] = rng.choice([1, 2, 3])
             if rng.random() < 0.3:
                 params['max_tasks_active'] = rng.choice([1, 2, 4])
-            calls.append({'kind': rng.choice(['map', 'map_unordered', 'imap', 'imap_unordered']), 'n': n, 'input': 'list',
-                          'elem': 'scalar', 'params': params, 'base': 1000 * (j + 1)})
+            call = {'kind': rng.choice(['map', 'map_unordered', 'imap', 'imap_unordered']), 'n': n, 'input': 'list',
+                    'elem': 'scalar', 'params': params, 'base': 1000 * (j + 1)}
+            if j == 0 and rng.random() < 0.3 and n >= 7:
+                # the input iterable itself raises after some chunks were handed out; the caller catches it
+                call.update(input='gen_raising', raise_at=rng.choice([n - 1, n - 2, n // 2 + 1]), expect_exc='RuntimeError')
+                call['params'] = {'chunk_size': rng.choice([1, 2]), 'iterable_len': n}
+            calls.append(call)
+        if calls and calls[-1].get('expect_exc') and len([c for c in calls if 'n' in c]) == 1:
+            calls.append({'kind': 'map', 'n': 9, 'input': 'list', 'elem': 'scalar', 'params': {'chunk_size': 2}, 'base': 5000})
         scens.append({'id': f'o{k}', 'pool': pool, 'calls': calls, 'budget': 60})
     return scens
 
@@ -67,6 +74,8 @@ def oracle(rec):
     checked = 0
     for call, j in zip(map_calls, order_of_jobs):
         pos = call.get('base', 0)
+        if call.get('expect_exc'):
+            continue                      # the call that was cut short by its own input: only its successors are judged
         for k, (ln, chosen) in enumerate(jobs[j]):
             if chosen != k % nj:
                 return f"call base={call.get('base')}: chunk {k} was put on worker {chosen}, expected {k % nj}", checked
@@ -85,7 +94,8 @@ def analyse(recs):
         if rec['status'] != 'done' or not rec['result']:
             hangs.append(rec)
             continue
-        errs = [c for c in rec['result']['calls'] if c.get('outcome') != 'ok']
+        errs = [c for c, sc in zip(rec['result']['calls'], rec['scenario']['calls'])
+                if c.get('outcome') != 'ok' and not (sc.get('expect_exc') and c.get('exc', {}).get('type') == sc['expect_exc'])]
         if errs:
             bad.append((rec, f"call raised {errs[0]['exc']['type']}: {errs[0]['exc']['args']}"))
             continue
